@@ -111,6 +111,16 @@ func runC08(tier string, _ []string) int {
 		// ---- write phase
 		var sent []sentBatch
 		lastSent := map[string]data.Point{}
+		// the points the clients were started with count as "the last write" of their identities: a
+		// rewrite with the very same timestamp and other content is still a change the client must be told of
+		for _, t := range append(append([]string{}, vnodes...), kids...) {
+			for ik, p := range g.NodeP[t] {
+				lastSent[t+"|"+ik[0]+"/"+ik[1]] = p
+				if ik[1] == "0" {
+					lastSent[t+"|"+ik[0]+"/"] = p
+				}
+			}
+		}
 		nB := 30 + r.Intn(c.N(60, 170))
 		allTargets := append(append(append(append([]string{}, vnodes...), kids...), others...), grp)
 		for k := 0; k < nB; k++ {
